@@ -133,10 +133,10 @@ Sens == { Cfg("node", 1, 2, {0}, {{"continuation_ignores_crash"}}),
 MCQuick == Sens \cup { Plain("node", 2, 3), Plain("node", 3, 2), Plain("queue", 2, 3), Plain("part", 2, 3),
                        Plain("link", 2, 2), Plain("cap", 2, 3), Plain("mixed", 2, 2),
                        Cfg("mixed", 1, 2, {0, 1, 2, 3}, {{}}) }
-MCThorough == Sens \cup { Plain("node", 3, 4), Plain("node", 2, 5), Plain("queue", 3, 3), Plain("queue", 2, 4),
-                          Plain("part", 3, 3), Plain("link", 3, 3), Plain("net", 3, 3), Plain("cap", 3, 3),
+MCThorough == Sens \cup { Plain("node", 3, 3), Plain("node", 2, 5), Plain("queue", 3, 3), Plain("queue", 2, 4),
+                          Plain("part", 3, 3), Plain("link", 3, 3), Plain("net", 2, 3), Plain("cap", 3, 3),
                           Plain("cap", 2, 4), Plain("mixed", 2, 3), Plain("mixed", 3, 2),
-                          Cfg("mixed", 2, 2, {0, 1, 2, 3}, {{}}), Cfg("node", 2, 3, {0, 1, 2, 3}, {{}}) }
+                          Cfg("mixed", 2, 2, {0, 1, 3}, {{}}), Cfg("node", 2, 3, {0, 1, 2, 3}, {{}}) }
 GenQuick == { Plain("node", 2, 3), Plain("queue", 2, 3), Plain("part", 2, 3), Plain("link", 2, 2),
               Plain("cap", 2, 3), Plain("mixed", 2, 2), Cfg("mixed", 1, 3, {0, 1, 2, 3}, {{}}) }
 GenThorough == { Plain("node", 3, 3), Plain("queue", 2, 4), Plain("part", 3, 3), Plain("link", 3, 3),
